@@ -76,6 +76,22 @@ def star_then_lit(x, o, names):
     return [] if fl["nullglob"] else ["*" + x]
 
 
+def bracket_members(x, o, names):
+    """expected result of  [a"$x"]  : a bracket expression whose members are `a` and the characters of the value"""
+    fl = opt_flags(o)
+    if fl["noglob"]:
+        return ["[a" + x + "]"]
+    m = sorted(n for n in names if len(n) == 1 and (n == "a" or n in x) and n != ".")
+    if m:
+        return m
+    if fl["failglob"]:
+        return None
+    return [] if fl["nullglob"] else ["[a" + x + "]"]
+
+
+GLOBCH = set("*?[]()|!+@\\")
+
+
 def trim_nl(s):
     return s.rstrip("\n")
 
@@ -84,6 +100,7 @@ def trim_nl(s):
 #   'q'  every expansion is quoted: intrinsic predicate = expectation
 #   'm'  quoted value next to an unquoted glob: expectation computed independently (value literal)
 #   'c'  correspondence only (brush == model)
+#   'l'  literal text next to an unquoted value: brush == model, and the literal text is not field-split
 #   'u'  unquoted: brush == model, plus the weak predicate "every word is a directory entry or a piece of the value"
 TEMPLATES = [
     ("dq_x", '"$x"', ["D(", "Vx", "D)"], "w", "q", lambda it, i, o, n: [it[0]]),
@@ -101,6 +118,10 @@ TEMPLATES = [
     ("s_mix", 'a$x"$x"', ["Ks", "Ta", "Vx", "D(", "Vx", "D)"], "s", "q", lambda it, i, o, n: ["a" + it[0] * 2]),
     ("lit_star", '"$x"*', ["D(", "Vx", "D)", "T*"], "w", "m", lambda it, i, o, n: lit_then_star(it[0], o, n)),
     ("star_lit", '*"$x"', ["T*", "D(", "Vx", "D)"], "w", "m", lambda it, i, o, n: star_then_lit(it[0], o, n)),
+    # the quoted value inside a bracket expression that is otherwise unquoted: its characters are literal members
+    ("br_lit", '[a"$x"]', ["T[a", "D(", "Vx", "D)", "T]"], "w", "m", lambda it, i, o, n: bracket_members(it[0], o, n)),
+    # literal text next to an unquoted expansion: kind 'l' = brush == model, and the literal prefix stays in one piece
+    ("uq_lit", 'a:x$x', ["Ta:x", "Vx"], "w", "l", None),
     ("uq_x", '$x', ["Vx"], "w", "u", None),
     ("uq_xb", 'a${x}', ["Ta", "Vx"], "w", "u", None),
     ("uq_cmd", '$(printf %s "$x")', ["Yx"], "w", "u", None),
@@ -213,6 +234,15 @@ def leg_a(ctx, root, jobs, tag):
                 want = exp(it, ifs, o, DIRNAMES)
                 if bv != want:
                     why = "quoted expansion did not deliver the original string(s): got %r, want %r" % (bv, want)
+            elif kind == "l":
+                # literal script text is never field-split (only the expansion's value is)
+                globby = not opt_flags(o)["noglob"] and any(c in GLOBCH for c in it[0])
+                if isinstance(bv, list) and not globby and not (bv and bv[0].startswith("a:x")):
+                    lw = "literal text `a:x` next to $x was cut by field splitting: %r" % (bv,)
+                    if bv == mv and ifs in (":", "x"):
+                        ctx.known_or_violation("literal_text_split_by_ifs", lw, dict(case, brush=bv))
+                        continue
+                    why = lw
             elif kind == "u":
                 if isinstance(bv, list) and not substrings_ok(bv, it, DIRNAMES + ["a"]):
                     why = "unquoted expansion produced a word that is neither a piece of the value nor a directory entry: %r" % (bv,)
@@ -412,6 +442,143 @@ def leg_redirect(ctx, vals, tag):
                               {"leg": "R", "values": missing or vs[:3], "missing": missing, "unexpected": extra})
 
 
+
+# ------------------------------------------------------------------------------------------------
+# leg C: context sweep — a seeded sample of the values, delivered through every expansion form again, but inside
+# other execution contexts and under options that must not matter (Props/C04.lean
+# `expansion_reads_only_visible_state`: the model's result depends only on what the environment shows).
+
+SWEEP_CONTEXTS = ["top", "func-local", "func2", "func-args", "subshell", "cmdsubst", "eval", "group", "lastpipe",
+                  "for-twice", "while", "source", "trap", "literal-prefix"]
+SWEEP_OPTIONS = [None, "set -u", "set -f", "set -e", "set -E", "set -T", "set +h", "set -C", "shopt -s extglob",
+                 "shopt -s nullglob", "shopt -s dotglob", "shopt -s failglob", "shopt -s nocaseglob",
+                 "shopt -s nocasematch", "shopt -s globstar", "shopt -s expand_aliases", "shopt -s lastpipe",
+                 "shopt -s inherit_errexit"]
+
+
+def probe_lines(nm, export=True):
+    """every expansion form of the property, on the variable `nm`.  `export=False`: without the two `export` lines —
+    under an IFS holding `x` brush cuts the command word `export` itself in two (finding literal_text_split_by_ifs,
+    shown narrowly by the `literal-prefix` observation), which would only blur the other records"""
+    q = '"$%s"' % nm
+    L = [
+        "printf '%%s\\0' %s \"${%s}\" \"x${%s}y\"" % (q, nm, nm),
+        "y=$%s; printf '%%s\\0' \"$y\"" % nm,
+        "a=(%s \"${%s}\"); printf '%%s\\0' \"${#a[@]}\" \"${a[@]}\"" % (q, nm),
+        "printf '%%s\\0' \"$(printf %%s %s)\"" % q,
+        "case $%s in %s) printf 'M\\0';; *) printf 'N\\0';; esac" % (nm, q),
+        "[[ $%s == %s ]] && printf 'M\\0' || printf 'N\\0'" % (nm, q),
+        "for zz in %s \"${%s}\"; do printf '%%s\\0' \"$zz\"; done" % (q, nm),
+        "export e1=%s; printf '%%s\\0' \"$e1\"" % q,
+        "declare d1=%s; printf '%%s\\0' \"$d1\"" % q,
+        "declare d2=$%s; printf '%%s\\0' \"$d2\"" % nm,
+        "export e3=$%s; printf '%%s\\0' \"$e3\"" % nm,
+        "e2=$%s eval 'printf \"%%s\\0\" \"$e2\"'" % nm,
+        "mapfile -d '' r <<<%s; printf '%%s\\0' \"${r[@]}\"" % q,
+        "mapfile -d '' r <<EOT\n$%s\nEOT\nprintf '%%s\\0' \"${r[@]}\"" % nm,
+    ]
+    return L if export else [l for l in L if not l.startswith("export ")]
+
+
+def probe_expected(v, export=True):
+    e = [v, v, "x" + v + "y", v, "2", v, v, trim_nl(v), "M", "M", v, v, v, v, v, v, v, v + "\n", v + "\n"]
+    return e if export else e[:12] + e[13:15] + e[16:]
+
+
+def sweep_script(vals, ifs, o, optline, nonce, srcpath):
+    fl = opt_flags(o)
+    L = ["exec 3>&1", "shopt -%s extglob" % ("s" if fl["extglob"] else "u")]
+    for k in ("nullglob", "failglob", "dotglob"):
+        if fl[k]:
+            L.append("shopt -s " + k)
+    if fl["noglob"]:
+        L.append("set -f")
+    if ifs is not None:
+        L.append("IFS=" + lib_sq(ifs))
+    ex = not (ifs is not None and "x" in ifs)
+    L.append("fp() {\nlocal v=\"$1\"\n" + "\n".join(probe_lines("v", ex)) + "\n}")
+    L.append("fq() { local v=other zz=1; fp \"$@\"; }")
+    L.append("fa() { local IFS=:; printf '%s\\0' \"$#\" \"$1\" \"$@\" \"$*\"; }")
+    if optline:
+        L.append(optline)
+    obs = []          # (value index, context, expected records)
+    trap_body = []
+
+    def mark(j, cx, exp):
+        obs.append((j, cx, exp))
+        return "printf '%%s\\0' '=MARK-%s-%d='" % (nonce, len(obs) - 1)
+    for j, v in enumerate(vals):
+        V = "V%d" % j
+        e = probe_expected(v, ex)
+        L += [mark(j, "top", e)] + probe_lines(V, ex)
+        L += ["v=GLOBAL", mark(j, "func-local", e + ["GLOBAL"]), 'fp "$%s"' % V, "printf '%s\\0' \"$v\""]
+        L += [mark(j, "func2", e + ["GLOBAL"]), 'fq "$%s"' % V, "printf '%s\\0' \"$v\""]
+        L += ["set -- c1 'c 2'", mark(j, "func-args", ["2", v, v, v, v + ":" + v, "2", "c1", "c1", "c 2"]),
+              'fa "$%s" "$%s"' % (V, V), "printf '%s\\0' \"$#\" \"$1\" \"$@\""]
+        L += [mark(j, "subshell", e), '( fp "$%s" )' % V]
+        L += [mark(j, "cmdsubst", e), 'z=$( fp "$%s" >&3 )' % V]
+        L += [mark(j, "eval", e + [v, v]), "eval 'fp \"$%s\"; printf \"%%s\\0\" \"$%s\" \"${%s}\"'" % (V, V, V)]
+        L += [mark(j, "group", e), '{ fp "$%s"; } 2>/dev/null' % V]
+        L += ["shopt -s lastpipe", mark(j, "lastpipe", e), ': | fp "$%s"' % V]
+        L += [mark(j, "for-twice", e + e), 'for i in 1 2; do fp "$%s"; done' % V]
+        L += [mark(j, "while", e), 'while :; do fp "$%s"; break; done' % V]
+        # (the value goes in through a variable: brush's `.` eats a `--` argument — a defect of that builtin's
+        # option parsing, not of expansion)
+        L += [mark(j, "source", e), 'sv=$%s; . %s' % (V, lib_sq(srcpath))]
+        # literal text next to the unquoted value is never field-split (globbing off for this one)
+        L += ["set -f", 'set -- a:x$%s' % V, mark(j, "literal-prefix", ["a:x"]), "printf '%s\\0' \"${1:0:3}\""]
+        if not fl["noglob"] and optline != "set -f":
+            L.append("set +f")
+        trap_body += [mark(j, "trap", e), 'fp "$%s"' % V]
+    L.append("trap " + lib_sq("\n".join(trap_body)) + " EXIT")
+    return "\n".join(L) + "\n", obs
+
+
+def leg_c(ctx, root, batches, tag):
+    """batches: list of (vals, ifsname, ifs, opts, optline)"""
+    srcdir = tempfile.mkdtemp(prefix="c04-src-")
+    srcpath = os.path.join(srcdir, "probe.sh")
+    with open(srcpath, "w") as fh:
+        fh.write('fp "$sv"\n')
+
+    def one(bt):
+        vals, ifsname, ifs, o, optline = bt
+        nonce = "%08x" % (hash((tuple(vals), ifsname, o, optline)) & 0xffffffff)
+        sc, obs = sweep_script(vals, ifs, o, optline, nonce, srcpath)
+        rb = run_script("brush", sc, vals, root)
+        ro = run_script("bash", sc, vals, root)
+        return obs, split_records(rb[1], nonce, len(obs)), split_records(ro[1], nonce, len(obs))
+    try:
+        res = lib.pmap(one, batches, workers=WORKERS)
+    finally:
+        shutil.rmtree(srcdir, ignore_errors=True)
+    nv = 0
+    for (vals, ifsname, ifs, o, optline), (obs, gb, go) in zip(batches, res):
+        for k, (j, cx, want) in enumerate(obs):
+            v = vals[j]
+            ctx.count(("C", ifsname, o, optline, cx, v), nontrivial=len(v) > 0, bucket="C:%s:%s" % (tag, optline or cx))
+            ctx.impl_validated += 1
+            b_ok, o_ok = gb[k] == want, go[k] == want
+            if not o_ok:
+                ctx.oracle_mismatch += 1
+                if len(ctx.notes) < 8:
+                    ctx.notes.append("bash itself fails the expectation in context %s%s: %r got %r want %r" % (
+                        cx, " under " + optline if optline else "", v, go[k], want))
+            if b_ok:
+                continue
+            if not o_ok and go[k] == gb[k]:
+                continue            # bash prints the very same: the expectation is wrong, not brush
+            case = {"leg": "C", "value": v, "ifs": ifs, "opts": o, "option": optline, "context": cx,
+                    "brush": gb[k], "want": want, "bash_ok": o_ok}
+            what = "in context %s%s the original string was not delivered: got %r, want %r" % (
+                cx, " under `%s`" % optline if optline else "", gb[k], want)
+            if cx == "literal-prefix" and ifs is not None and any(c in ifs for c in "a:x") and o_ok:
+                ctx.known_or_violation("literal_text_split_by_ifs", what, case)
+            elif nv < 25:
+                nv += 1
+                ctx.violation(what, case)
+
+
 # ------------------------------------------------------------------------------------------------
 
 def corpus_cases():
@@ -543,6 +710,17 @@ def _run(ctx, rng, root):
                 k += 1
                 batches.append(([v], n, i, o))
     leg_b(ctx, root, batches, "long")
+    # ---- leg C: context sweep on a seeded sample
+    pool = cvals + small + mid[::5] + rnd
+    nper = ctx.size(24, 400)
+    batches = []
+    for oi, optline in enumerate(SWEEP_OPTIONS):
+        vs = [pool[rng.randrange(len(pool))] for _ in range(nper)] + (cvals[:6] if optline is None else [])
+        for ch in lib.chunked(vs, max(1, len(vs) // 12)):
+            n, i, o = cmb[k % len(cmb)]
+            k += 1
+            batches.append((ch, n, i, o, optline))
+    leg_c(ctx, root, batches, "sweep")
     leg_redirect(ctx, cvals + small + mid + rnd, "all")
     ctx.cov["rule"] = (
         "values: every string over a %d-character adversarial alphabet up to length 2 (full cross product with %d word "
@@ -592,6 +770,25 @@ def replay(ctx, rp):
             print("brush: %r" % (judge_records(gb, v) or "all contexts deliver the value",))
             print("bash:  %r" % (judge_records(go, v) or "all contexts deliver the value",))
             return 1 if judge_records(gb, v) else 0
+        if case.get("leg") == "C":
+            v = case["value"]
+            srcdir = tempfile.mkdtemp(prefix="c04-src-")
+            srcpath = os.path.join(srcdir, "probe.sh")
+            open(srcpath, "w").write('fp "$sv"\n')
+            sc, obs = sweep_script([v], case["ifs"], case["opts"], case.get("option"), "r", srcpath)
+            gb = split_records(run_script("brush", sc, [v], root)[1], "r", len(obs))
+            go = split_records(run_script("bash", sc, [v], root)[1], "r", len(obs))
+            shutil.rmtree(srcdir, ignore_errors=True)
+            bad = 0
+            print("value: %r IFS=%r opts=%s option=%r" % (v, case["ifs"], case["opts"], case.get("option")))
+            for k, (j, cx, want) in enumerate(obs):
+                if gb[k] != want or cx == case.get("context"):
+                    print("context %-14s brush %s   bash %s" % (cx, "ok" if gb[k] == want else repr(gb[k]),
+                                                               "ok" if go[k] == want else repr(go[k])))
+                    if gb[k] != want:
+                        print("   wanted %r" % (want,))
+                        bad = 1
+            return bad
         if case.get("leg") == "R":
             bad = 0
             for v in case["values"]:
